@@ -38,7 +38,7 @@ NA = XlError('#N/A')
 class Operand(Token):
     def ast(self, tokens, stack, builder):
         if tokens and (isinstance(tokens[-1], Operand) or
-                       tokens[-1].name == '%'):
+                       tokens[-1].name in ('%', ')')):
             raise TokenError()
         super(Operand, self).ast(tokens, stack, builder)
         builder.append(self)
